@@ -15,15 +15,53 @@ def classes_by_type():
     return dict((t, cls) for t, (cls, _evt) in dulprovider.PDU_TYPES.items())
 
 
+def second_use(real):
+    """The object for `real` obtained the way a retry or an incremental builder obtains it: a smaller PDU is built,
+    measured and encoded once (first use), then the missing last element is appended to the live object.  Lengths
+    cached at the first use would now be stale.  None when the value has nothing to take away."""
+    from pynetdicom2 import pdu
+    k = real[0]
+    try:
+        if k == 'PData' and len(real[2]) >= 2:
+            obj = pm.to_impl((real[0], real[1], real[2][:-1]))
+            obj.total_length(), obj.encode(), repr(obj)
+            c, d = real[2][-1]
+            obj.data_value_items.append(pdu.PresentationDataValueItem(c, bytes(d)))
+            return obj
+        if k == 'Assoc':
+            items = list(real[8])
+            for idx, it in enumerate(items):
+                if it[0] == 'PcRq' and len(it[7]) >= 2:
+                    small = list(it)
+                    small[7] = it[7][:-1]
+                    obj = pm.to_impl(real[:8] + (items[:idx] + [tuple(small)] + items[idx + 1:],))
+                    obj.total_length(), obj.encode(), repr(obj)
+                    r, n = it[7][-1]
+                    obj.variable_items[idx].ts_sub_items.append(pdu.TransferSyntaxSubItem(pm.s_(n), r))
+                    return obj
+                if it[0] == 'UserInfo' and len(it[2]) >= 2:
+                    small = (it[0], it[1], it[2][:-1])
+                    obj = pm.to_impl(real[:8] + (items[:idx] + [small] + items[idx + 1:],))
+                    obj.total_length(), obj.encode(), repr(obj)
+                    obj.variable_items[idx].user_data.append(pm.to_impl_sub(it[2][-1]))
+                    return obj
+    except Exception:  # noqa  (the reduced value may itself be unencodable: fall back to the plain construction)
+        return None
+    return None
+
+
 def observe_rt(p):
     """(enc bytes|None, total_length, decode result, re-encode bytes|None, notes)"""
     real = pm.realize(p)
     import zlib
     # every third value is built by filling its containers after construction (PDV items / variable items / user
     # data appended one by one), as application code that assembles a PDU step by step does
-    pm.BUILD_BY_APPENDING[0] = zlib.crc32(repr(real).encode()) % 3 == 0
+    h = zlib.crc32(repr(real).encode())
+    pm.BUILD_BY_APPENDING[0] = h % 3 == 0
     try:
-        obj = pm.to_impl(real)
+        obj = second_use(real) if h % 5 == 1 else None
+        if obj is None:
+            obj = pm.to_impl(real)
     finally:
         pm.BUILD_BY_APPENDING[0] = False
     notes = {}
